@@ -66,9 +66,13 @@ class Tracer:
     """Install with `with Tracer(before=callback) as tr:`.  Only threads registered with
     tr.enable() generate events (so harness-side inspection through its own connection is silent)."""
 
-    def __init__(self, before=None, clock=None):
+    def __init__(self, before=None, clock=None, after_txn=False):
         self.before_cb = before
         self.clock = clock
+        # after_txn: a further event ('sync:after-BEGIN' / COMMIT / ROLLBACK) right AFTER a transaction statement has
+        # executed, so that the scheduler can switch threads between the statement and the bookkeeping that follows it
+        # (threads sharing one Cache object share that bookkeeping)
+        self.after_txn = after_txn
         self._enabled = threading.local()
         self.saved = {}
 
@@ -89,8 +93,12 @@ class Tracer:
 
         class TracingConnection(_sqlite3.Connection):
             def execute(self, stmt, *args):
-                tracer.emit('sql', role_of(stmt), (norm_sql(stmt), args[0] if args else None))
-                return super().execute(stmt, *args)
+                role = role_of(stmt)
+                tracer.emit('sql', role, (norm_sql(stmt), args[0] if args else None))
+                r = super().execute(stmt, *args)
+                if tracer.after_txn and role in ('BEGIN', 'COMMIT', 'ROLLBACK'):
+                    tracer.emit('sync', 'after-' + role, None)
+                return r
 
         def connect(*a, **kw):
             kw['factory'] = TracingConnection
@@ -183,10 +191,11 @@ class Scheduler:
     connection (the scheduler does it if given `warmup` callables).
     """
 
-    def __init__(self, clock=None, max_steps=20000, sleep_advances=True):
+    def __init__(self, clock=None, max_steps=20000, sleep_advances=True, after_txn=False):
         self.clock = clock
         self.max_steps = max_steps
         self.sleep_advances = sleep_advances
+        self.after_txn = after_txn
         self.log = []
         self.lock = threading.Lock()
 
@@ -203,7 +212,7 @@ class Scheduler:
         self.kill_at = kill_at or {}       # cid -> event index (0-based count of that client's events)
         self.nevents = [0] * n
         self.overflow = False
-        tracer = Tracer(before=self._before, clock=self.clock)
+        tracer = Tracer(before=self._before, clock=self.clock, after_txn=self.after_txn)
         self.tracer = tracer
         threads = []
         with tracer:
